@@ -277,18 +277,26 @@ class FakeNet:
 
 
 class FakeConn:
-    def __init__(self):
+    """connection of an incoming message.  delay=None: disconnect() returns without suspending;
+    else a function giving the (symbolic) time disconnect() stays suspended - the real
+    PeerConnection.disconnect awaits state callbacks and writer.wait_closed(), so removals and
+    expiries can land while the reply handler waits for it (duration 0 = one bare yield)."""
+
+    def __init__(self, delay=None):
         self.closed = 0
+        self.delay = delay
 
     async def disconnect(self, reason=None):
         self.closed += 1
+        if self.delay is not None:
+            await asyncio.sleep(self.delay())
 
 
 class Ev:
-    __slots__ = ('kind', 'req', 'time', 'result')
+    __slots__ = ('kind', 'req', 'time', 'result', 'state')
 
-    def __init__(self, kind, req, time, result=None):
-        self.kind, self.req, self.time, self.result = kind, req, time, result
+    def __init__(self, kind, req, time, result=None, state=None):
+        self.kind, self.req, self.time, self.result, self.state = kind, req, time, result, state
 
 
 class Rec:
@@ -303,8 +311,9 @@ class Rec:
 
 class World:
 
-    def __init__(self, c, position='any', slow_send=False):
+    def __init__(self, c, position='any', slow_send=False, slow_disconnect=False):
         self.c = c
+        self.slow_disconnect = slow_disconnect
         self.loop = CLoop()
         self.settings = Settings(**DEFAULT_SETTINGS)
         self.settings.searches.wishlist = [WishlistSettingEntry(query='wish one'),
@@ -361,7 +370,10 @@ class World:
         self.say('SearchRequestRemovedEvent ticket', event.query.ticket)
 
     def _on_result(self, event):
-        self.events.append(Ev('result', event.query, self.loop.time(), event.result))
+        # what the request is at the moment the event is emitted: live | removed_by_user | timed_out
+        rec = next((r for r in self.recs if r.req is event.query), None)
+        state = self.state_of(rec, self.registered()) if rec is not None else 'never_sent'
+        self.events.append(Ev('result', event.query, self.loop.time(), event.result, state))
         self.say('SearchResultEvent for request ticket', event.query.ticket)
 
     def new_rec(self, req):
@@ -481,29 +493,39 @@ class World:
 
     # replies ------------------------------------------------------------------
     async def a_reply(self, m):
-        """an incoming PeerSearchReply with ticket m, through the manager's message listener"""
+        """an incoming PeerSearchReply with ticket m, through the manager's message listener.
+        The handler may stay suspended (slow disconnect); removals / expiries may land meanwhile.
+        Reference: a result event for request r is legitimate iff r is registered *at the moment the
+        event is emitted* and the reply carries r's ticket; it is due when r was registered with that
+        ticket during the whole handling (from arrival to the return of the handler)."""
         c = self.c
-        msg = PeerSearchReply.Request(username='peer', ticket=m, results=[], has_slots_free=True, avg_speed=0, queue_size=0)
+        who = f'peer{next(self.counter)}'      # identifies the events of this reply
+        msg = PeerSearchReply.Request(username=who, ticket=m, results=[], has_slots_free=True, avg_speed=0, queue_size=0)
+        conn = FakeConn((lambda: dur(c, f'disconnect_takes_{who}')) if self.slow_disconnect else None)
         live = self.registered()
-        n0 = len(self.events)
         exc = None
         self.say('PeerSearchReply ticket', m)
         try:
-            await self.mgr._on_message_received(MessageReceivedEvent(msg, FakeConn()))
+            await self.mgr._on_message_received(MessageReceivedEvent(msg, conn))
         except Exception as e:  # noqa
             exc = e
-        new = [e for e in self.events[n0:] if e.kind == 'result']
+        new = [e for e in self.events if e.kind == 'result' and getattr(e.result, 'username', None) == who]
+        still = self.registered()
         states = sorted({self.state_of(r, live) for r in self.recs}) or ['no_request']
         c.check(exc is None, 'reply_handled_without_error', sig=[type(exc).__name__, states], info=repr(exc))
         for r in self.recs:
-            got = sum(1 for e in new if e.req is r.req)
-            want = (m == r.ticket) if any(x is r for x in live) else False
-            st = self.state_of(r, live)
-            if got > 1:
-                c.check(False, 'result_reported_once_per_reply', sig=[st])
-            else:
-                c.check(iff(got == 1, want), 'result_iff_registered_and_ticket', sig=[st, 'reported' if got else 'not_reported'],
+            evs = [e for e in new if e.req is r.req]
+            if len(evs) > 1:
+                c.check(False, 'result_reported_once_per_reply', sig=[self.state_of(r, live)])
+            elif evs:
+                st = evs[0].state
+                c.check((m == r.ticket) if st == 'live' else False, 'result_iff_registered_and_ticket', sig=[st, 'reported'],
                         info={'request': self.recs.index(r)})
+            elif any(x is r for x in live) and any(x is r for x in still):
+                c.check(Not(m == r.ticket) if c.symbolic else m != r.ticket, 'result_iff_registered_and_ticket',
+                        sig=['live', 'not_reported'], info={'request': self.recs.index(r)})
+            else:
+                c.check(True, 'result_iff_registered_and_ticket')
         c.check(all(any(e.req is r.req for r in self.recs) for e in new), 'result_for_a_sent_request')
         for e in new:
             c.check(getattr(e.result, 'ticket', None) == m, 'result_carries_reply_ticket')
@@ -514,6 +536,8 @@ class World:
             c.reach('reply_dropped')
         if new and any(r.manual for r in self.recs):
             c.reach('reply_reported_after_some_manual_removal')
+        if len(still) < len([r for r in live]) or any(not any(x is r for x in still) for r in live):
+            c.reach('removed_while_reply_in_flight')
 
     def state_of(self, r, live):
         if any(x is r for x in live):
@@ -641,9 +665,12 @@ OPS_DOC = {
 
 
 @with_boxed_tickets
-def h_scenario(c, ops='TSDPD', position='low', send='instant'):
-    w = World(c, position, slow_send=(send == 'slow'))
+def h_scenario(c, ops='TSDPD', position='low', send='instant', disconnect='instant'):
+    """disconnect='slow': the connection's disconnect() awaited by the reply handler stays suspended
+    for a fresh symbolic time, so later ops (removal, time passing = expiries) land inside the handling"""
+    w = World(c, position, slow_send=(send == 'slow'), slow_disconnect=(disconnect == 'slow'))
     wait = send == 'instant'
+    rwait = disconnect == 'instant'
     for i, op in enumerate(ops):
         if op == 'T':
             w.set_request_timeout()
@@ -671,13 +698,13 @@ def h_scenario(c, ops='TSDPD', position='low', send='instant'):
                 w.loop.call(w.remove, r)
         elif op == 'P':
             m = c.fresh_int(f'reply_ticket{i}', 0, U32)
-            w.run_op(w.a_reply(box(m) if c.symbolic else m), 'reply')
+            w.run_op(w.a_reply(box(m) if c.symbolic else m), 'reply', rwait)
         elif op == 'Q':
             if not w.recs:
                 c.reach('nothing_to_answer')
             else:
                 r = w.recs[c.choose(len(w.recs), f'answer_which{i}')]
-                w.run_op(w.a_reply(r.ticket), 'reply')
+                w.run_op(w.a_reply(r.ticket), 'reply', rwait)
         elif op == 'D':
             w.loop.advance(dur(c, f'wait{i}'))
         else:
@@ -692,8 +719,8 @@ def h_scenario(c, ops='TSDPD', position='low', send='instant'):
 # ------------------------------------------------------------------------------
 
 @with_boxed_tickets
-def h_instant(c, users=('remove',), two_requests=False, position='low'):
-    w = World(c, position)
+def h_instant(c, users=('remove',), two_requests=False, position='low', disconnect='instant'):
+    w = World(c, position, slow_disconnect=(disconnect == 'slow'))
     loop = w.loop
     w.set_request_timeout(lo=1)
     exc, a_req = w.run_op(w.a_search('S'), 'search')
